@@ -645,6 +645,15 @@ def analyse_setters(index, rep):
                             nm = None
                         if isinstance(nm, str) and nm.endswith("_SET"):
                             check_flags.add(nm)
+    # flags addressed by a computed name inside a setter (`getattr(self, nutrient + "_SET")`, `setattr(self, flag_name, True)`): which family a
+    # call applies is then decided by its arguments, which this rule does not follow - no verdict either way
+    for name, fn in methods.items():
+        if name in ("__init__", "check_all_set"):
+            continue
+        for c_ in [c_ for c_ in ast.walk(fn) if isinstance(c_, ast.Call) and isinstance(c_.func, ast.Name) and c_.func.id in ("getattr", "setattr")
+                   and len(c_.args) >= 2 and norm_src(c_.args[0]) == "self" and str_const(c_.args[1]) is None]:
+            raise AnalysisError(f"Scenarios.{name} addresses an attribute of the loader by a computed name ({norm_src(c_)[:60]}): the exactly-once "
+                                "flag a call applies depends on its arguments, which the protocol rules do not follow")
     setters = {}
     helpers = {}
     # a method holding only one half of the protocol (the assert, or the set) that the dispatcher never calls and other methods of the class do
